@@ -804,6 +804,15 @@ def _run_case(case, T, info, res):
         return res
     res['origin'] = describe(x, T)
     res['okq'] = py_ok(x)
+    # flat payload with object identities for the heap (pickle memo) model: only when every
+    # exception entry at the top level is a RemoteException around a leaf exception
+    ents = _entries(x)
+    if ents and all(isinstance(v, RemoteException) and not _entries(v.exc) for v in ents
+                    if isinstance(v, (BaseException, RemoteException))):
+        oids = {}
+        res['memo'] = [f'{oids.setdefault(id(v.exc), len(oids))};{T.nid(_cls_name(v.exc))};'
+                       f'{T.nid(_args_key(v.exc))};{T.tok(v.tb)}' for v in ents if isinstance(v, RemoteException)]
+        res['memo_shared'] = len(oids) < len(res['memo'])
     if case.get('xproc'):
         return _run_xproc(case, T, info, res, x)
     snap = None
@@ -847,6 +856,9 @@ def _run_case(case, T, info, res):
             mon.append(dict(prop='C15', rule='hop-crashed', detail=f'hop {k}: {type(err).__name__}: {err!r}'[:300]))
             break
         res['hops'].append(dict(line=line, obs=observe(y, T), wobs=wobs))
+        if k == 0 and res.get('memo'):
+            res['memo_obs'] = [_sha(get_remote_traceback(v)) if is_remote_exception(v) else '(not remote)'
+                               for v in _entries(y) if isinstance(v, BaseException)]
         # ---- the property, directly on the real objects ----
         hits = []
         compare(snap, y, [], hits, first_texts, True)
@@ -892,6 +904,8 @@ def model_lines(cid, case, res):
     lines = ['fmt H=0 N=1 S=2', f'case {cid} {res["origin"]}', f'okq {cid}']
     for k, h in enumerate(res['hops']):
         lines.append(f'hop {cid} {k} {h["line"]}')
+    if res.get('memo_obs') is not None:
+        lines.append(f'memo {cid} ' + ' '.join(res['memo']))
     return lines
 
 
@@ -942,9 +956,12 @@ def compare_with_model(cid, case, res, out_lines):
     outs = {}
     wrps = {}
     okq = None
+    memo = None
     for l in out_lines:
         w = l.split()
-        if w[0] == 'out':
+        if w[0] == 'memo':
+            memo = {x.split('=', 1)[0]: x.split('=', 1)[1] for x in w[2:]}
+        elif w[0] == 'out':
             outs[int(w[2])] = w[3:]
         elif w[0] == 'wrp':
             wrps[int(w[2])] = w[3:]
@@ -956,6 +973,17 @@ def compare_with_model(cid, case, res, out_lines):
         return 'no okq answer from the driver'
     if okq != bool(res['okq']):
         return f'Exc.ok = {okq} but the real object graph carries tracebacks = {res["okq"]}'
+    if res.get('memo_obs') is not None:
+        if memo is None:
+            return 'no memo answer from the driver'
+
+        def texts(v):
+            return [_sha(''.join(res['pieces'][int(t)] for t in e.split(',') if t != '')) for e in v.split('|')]
+        if texts(memo['R']) != res['memo_obs']:
+            legacy = texts(memo['P']) == res['memo_obs']
+            return ('pickle-memo heap model: the repaired _rebuild_exception predicts other nested texts than the real code '
+                    'delivered' + ('; the real code behaves like the PINNED model Legacy/RemoteExc.lean: defect F22 '
+                                   '(shared exception object relabelled) is present' if legacy else ''))
     for k, h in enumerate(res['hops']):
         if k not in outs:
             return f'hop {k}: no answer from the driver'
